@@ -650,6 +650,10 @@ def _target_names(t):
     """(value_target, cursor_target) from `(X, cur)`"""
     if isinstance(t, ast.Tuple) and len(t.elts) == 2:
         return t.elts[0], t.elts[1]
+    if isinstance(t, ast.Name):
+        # `pair = read_x(data, cur)`: the value is pair[0], the cursor pair[1]
+        return (ast.Subscript(value=ast.Name(id=t.id, ctx=ast.Load()), slice=ast.Constant(value=0), ctx=ast.Load()),
+                ast.Subscript(value=ast.Name(id=t.id, ctx=ast.Load()), slice=ast.Constant(value=1), ctx=ast.Load()))
     return None, None
 
 
